@@ -33,3 +33,41 @@ package asetypes
 //@   requires [size] bytesz(t) != -1 ==> len(bs) == bytesz(t)
 //@   modifies
 //@   ensures [decimal-nonnil] err == nil && is(v, *Decimal) ==> payload(v) != 0
+
+//@ # ---------------------------------------------------------------------
+//@ # C16: Decimal construction and text conversion
+//@ pred decvalid(p int, s int) { 0 <= p && p <= 38 && 0 <= s && s <= p }
+//@ func (Decimal).sanity returns (err)
+//@   modifies
+//@   ensures [rejects-invalid] (err == nil) == decvalid(dec.Precision, dec.Scale)
+//@ func NewDecimal returns (d, err)
+//@   ensures [valid-or-error] (err == nil) == decvalid(precision, scale)
+//@   ensures [result] err == nil ==> d != nil && fresh(d) && d.Precision == precision && d.Scale == scale && d.i != nil
+//@   ensures [nil-on-error] err != nil ==> d == nil
+//@ func NewDecimalString returns (d, err)
+//@   ensures [valid] err == nil ==> decvalid(precision, scale) && d != nil && d.Precision == precision && d.Scale == scale && d.i != nil
+//@   ensures [nil-on-error] err != nil ==> d == nil
+//@ func (*Decimal).String returns (r)
+//@   requires [wf] dec.i != nil ==> 0 <= dec.Scale && dec.Scale <= dec.Precision
+//@   modifies
+//@ func (*Decimal).SetString returns (err)
+//@   requires [int] true
+//@   modifies dec.i
+//@   ensures [unchanged-on-error] err != nil ==> dec.i == old(dec.i)
+//@   ensures [set] err == nil ==> dec.i != nil && fresh(dec.i)
+//@ # methods that use the integer need it to be set (a Decimal with a nil integer stands for NULL
+//@ # and only supports String)
+//@ func (*Decimal).Negate
+//@   requires [int-set] dec.i != nil
+//@ func (*Decimal).SetBytes
+//@   requires [int-set] dec.i != nil
+//@ func (*Decimal).SetInt64
+//@   requires [int-set] dec.i != nil
+//@ func (Decimal).ByteSize returns (r)
+//@   requires [int-set] dec.i != nil
+//@ func (Decimal).Bytes returns (r)
+//@   requires [int-set] dec.i != nil
+//@ func (Decimal).Cmp returns (r)
+//@   requires [int-set] dec.i != nil
+//@ func (Decimal).IsNegative returns (r)
+//@   requires [int-set] dec.i != nil
